@@ -105,6 +105,7 @@ class Session:
         self.timeout = timeout
         self.out = bytearray()
         self.obs = []
+        self.winch_marks = []     # length of the output when each window resize was made
         self._obsbuf = b""
         fd, self.spec_path = tempfile.mkstemp(prefix="rlspec")
         os.write(fd, spec.encode())
@@ -312,6 +313,8 @@ class Session:
 
     def resize(self, cols, rows=24):
         """TIOCSWINSZ on the master: the kernel sends SIGWINCH to the foreground process group"""
+        self._drain()
+        self.winch_marks.append(len(self.out))
         fcntl.ioctl(self.master, termios.TIOCSWINSZ, struct.pack("HHHH", rows, cols, 0, 0))
         time.sleep(0.002)
         st = self.wait_quiet()
@@ -421,8 +424,13 @@ def _run_case(s, chunks, rows, probe, events, between_reads, sync_keys):
             apply_mode(a, what)
             termios.tcsetattr(sess.slave, termios.TCSANOW, a)
         stops.append({"found": before, "left": termios.tcgetattr(sess.slave), "out_mark": len(sess.out), "obs_mark": len(sess.obs)})
+        ahead = (events or {}).get("at_stop:%d" % k)
+        if ahead:
+            # typed while the application is busy between two reads (the terminal is in its cooked mode): waiting for the next read
+            os.write(sess.master, bytes(ahead))
+            sess.sent += len(ahead)
 
-    s.on_stop = on_stop if between_reads is not None else None
+    s.on_stop = on_stop if between_reads is not None or any(str(k).startswith("at_stop:") for k in (events or {})) else None
     statuses = [s.wait_quiet()]
     marks = [len(s.out)]
     obs_marks = [len(s.obs)]
@@ -505,7 +513,7 @@ def _run_case(s, chunks, rows, probe, events, between_reads, sync_keys):
     wedged = s.finish()
     return {"obs": s.obs, "out": bytes(s.out), "marks": marks, "obs_marks": obs_marks, "statuses": statuses,
             "wedged": wedged, "termios_initial": initial, "termios_final": final_termios, "termios_probe": tio,
-            "stops": stops}
+            "stops": stops, "winch_marks": list(s.winch_marks)}
 
 
 if __name__ == "__main__":
